@@ -61,6 +61,9 @@ func backendArgs(backend string, timeoutMs int) (string, []string) {
 		return "z3-new", []string{"-in"}
 	case "cvc5":
 		return "cvc5", []string{"--incremental", "--produce-models", "--lang=smt2", fmt.Sprintf("--tlimit-per=%d", 2500)}
+	case "cvc5-int":
+		// bit-vectors solved as integers (mod 2^k semantics kept): linear length arithmetic
+		return "cvc5", []string{"--produce-models", "--lang=smt2", "--solve-bv-as-int=sum", fmt.Sprintf("--tlimit-per=%d", 4000)}
 	default:
 		return "z3", []string{"-in"}
 	}
@@ -488,7 +491,7 @@ func (s *Solver) fast(all []*T, wantModel bool) (Result, *Model) {
 		s.nDump++
 		os.WriteFile(fmt.Sprintf("%s/big%d_%d.smt2", d, os.Getpid(), s.nDump), []byte(txt), 0o644)
 	}
-	if s.backend == "cvc5" {
+	if strings.HasPrefix(s.backend, "cvc5") {
 		s.send("(reset)\n(set-logic ALL)\n(set-option :produce-models true)")
 	} else {
 		s.send(fmt.Sprintf("(reset)\n(set-option :timeout %d)\n(set-option :produce-models true)", s.fastMs))
@@ -605,6 +608,7 @@ func (s *Solver) oneShot(all []*T, wantModel bool) (Result, *Model) {
 		{"z3", fmt.Sprintf("-T:%d", sec), f.Name()},
 		{"z3-new", fmt.Sprintf("-T:%d", sec), f.Name()},
 		{"cvc5", fmt.Sprintf("--tlimit=%d", s.timeoutMs), "--produce-models", f.Name()},
+		{"cvc5", fmt.Sprintf("--tlimit=%d", s.timeoutMs), "--produce-models", "--solve-bv-as-int=sum", f.Name()},
 	}
 	ch := make(chan answer, len(cmds))
 	var procs []*exec.Cmd
